@@ -216,7 +216,7 @@ def golden_of(spec, text, role='main'):
 
 def outcome(ev):
     """evaluate() result -> (exit, out, err) as ddSMT's checker sees it."""
-    if ev['fault'] in ('s', 'p', 'a', 'w'):
+    if ev['fault'] in ('s', 't', 'p', 'a', 'w'):
         return (None, None, None)
     if ev['fault'] == 'v':
         return (-11, '', '')
